@@ -4,7 +4,7 @@ from .histcommon import *
 ID = 'C05'
 LEVEL = 'model_checking'
 BUDGET = {'quick': 290, 'thorough': 3300}
-BOUNDS = {'quick': 'all histories of depth 2 over a 56-operation alphabet from 7 start states (6 in the quick tier) (fresh, declared, populated, loaded from a file that starts at frame 10, loaded with fewer labels than points, loaded with an empty ANALOG group, loaded with ANALOG:SCALE padded and ANALOG:UNITS unfilled), views checked after every successful call; frame payloads symbolic; rates from {0,50,100}/{0,100,200,300}; plus a kernel with FREE rates: POINT:RATE 100 (thorough: any float in [1,2000]), ANALOG:RATE set twice to any float in [0,20000] with 1..3 declared channels, header analog view vs ANALOG:USED decided by z3 (FP theory for the ratio)',
+BOUNDS = {'quick': 'all histories of depth 2 over a 58-operation alphabet from 7 start states (6 in the quick tier) (fresh, declared, populated, loaded from a file that starts at frame 10, loaded with fewer labels than points, loaded with an empty ANALOG group, loaded with ANALOG:SCALE padded and ANALOG:UNITS unfilled), views checked after every successful call; frame payloads symbolic; rates from {0,50,100}/{0,100,200,300}; plus a kernel with FREE rates: POINT:RATE 100 (thorough: any float in [1,2000]), ANALOG:RATE set twice to any float in [0,20000] with 1..3 declared channels, header analog view vs ANALOG:USED decided by z3 (FP theory for the ratio)',
           'thorough': 'all histories of depth 3 (6 x 56^3 = 630k histories; capped by the wall budget, the cut is reported)'}
 OUTSIDE = 'histories deeper than the bound; frames whose sub-frame count deviates from the header (undocumented deviation, outside the property\'s quantifier); rates other than the enumerated ones'
 ASSUMPTIONS = ['a frame is "filled" when it holds at least one point or one sub-frame (gap frames created by an indexed store beyond the end are not)']
